@@ -348,10 +348,14 @@ def check_walk(case, sub="walk", start=None):
                 if M.remove(q, det):
                     allprod = False
             icls = "product-qubit" if allprod else "entangled-qubit"
+            # the kept positions are a set: listing them in another order must not matter
+            keep_arg = list(reversed(keep)) if step[3] % 2 else list(keep)
+            if keep_arg != keep:
+                cl.add("keep_listed_descending")
             if use_class:
-                guarded(sub, icls, wrapper.trace_out_qubits, keep, det)
+                guarded(sub, icls, wrapper.trace_out_qubits, keep_arg, det)
             else:
-                tab = guarded(sub, icls, sfc.partial_trace, tab, keep, [2] * n, det)
+                tab = guarded(sub, icls, sfc.partial_trace, tab, keep_arg, [2] * n, det)
             cl.add("remove_product" if allprod else "remove_entangled")
             saw_size = True
             cl.add("size_change")
